@@ -101,3 +101,98 @@ enum_values.spec_funcs = {"EVAL": EVAL, "EVALAST": EVALAST}
 enum_values.defs = {"old_member_explicit": (["k_"], "ast.members[k_].value is not None")}
 
 UNITS = [enum_values]
+
+
+# ---------------------------------------------------------------------------------------------------------
+# Emission.  EnumNode.__init__ (above) leaves, per member, C_value / F_value texts that evaluate to the member's C++ value.
+# The C header repeats the enumerators: an enumerator WITHOUT initialiser gets previous + 1 from the C compiler, which is
+# the C++ value only where the source had none either -- so the initialiser may be left out only for such members; the
+# Fortran module gives every parameter its F_value.
+from contracts.fc_args import _append_format as _append_format_fields
+FCM = z3.Function("field_C_enum_member_by_key", StrS, StrS)
+FCV = z3.Function("field_C_value_by_key", StrS, StrS)
+FFM = z3.Function("field_F_enum_member_by_key", StrS, StrS)
+FFV = z3.Function("field_F_value_by_key", StrS, StrS)
+
+_ENUMNODE_C = ("obj", "EnumNode", {"options": ("obj", "Scope0", {}), "ast": ("obj", "Enum", {"members": MEMBERS}),
+                                   "fmtdict": ("obj", "Fmt", {"namespace_scope": "str", "enum_name": "str", "C_enum": "str"}),
+                                   "_fmtmembers": ("keyed", ["C_enum_member", "C_value"])})
+
+wrapc_enum = Unit(
+    prop="C11", name="Wrapc.wrap_enum", target="shroud/wrapc.py::Wrapc.wrap_enum",
+    params={"self": ("obj", "Wrapc", {"enum_impl": "list[str]"}), "cls": "none", "node": _ENUMNODE_C},
+    requires=["len(node.ast.members) >= 1"],
+    callees={("EnumNode", "eval_template"): (lambda ref: VFun("eval_template", lambda ex, st, a, k, n: __import__("pyvc.values", fromlist=["VNone"]).VNone()))},
+    init="n0 = len(self.enum_impl)\n",
+    loops={0: {"index": "km", "inv": [
+        "len(output) == n0 + 3 + km",
+        "all(output[n0 + 3 + j] == cm(node.ast.members[j].name) + ' = ' + cv(node.ast.members[j].name) + ',' "
+        "or (node.ast.members[j].value is None and output[n0 + 3 + j] == cm(node.ast.members[j].name) + ',') "
+        "for j in range(km))"]}},
+    ensures=[
+        "len(self.enum_impl) == n0 + 4 + len(node.ast.members)",
+        # every enumerator but the last: name [= value] ','  -- the initialiser is dropped only where the source has none
+        "all(self.enum_impl[n0 + 3 + j] == cm(node.ast.members[j].name) + ' = ' + cv(node.ast.members[j].name) + ',' "
+        "or (node.ast.members[j].value is None and self.enum_impl[n0 + 3 + j] == cm(node.ast.members[j].name) + ',') "
+        "for j in range(len(node.ast.members) - 1))",
+    ],
+    raises=[],
+)
+wrapc_enum.global_callees["append_format"] = VFun("append_format[wformat model]", _append_format_fields)
+wrapc_enum.spec_funcs = {"cm": FCM, "cv": FCV}
+wrapc_enum.pure_callees = ["eval_template"]
+UNITS += [wrapc_enum]
+
+_ENUMNODE_F = ("obj", "EnumNode", {"options": ("obj", "Scope0", {}),
+                                   "ast": ("obj", "Enum", {"members": MEMBERS, "scope": ("opt", "str")}),
+                                   "fmtdict": ("obj", "Fmt", {"namespace_scope": "str", "enum_name": "str"}),
+                                   "_fmtmembers": ("keyed", ["F_enum_member", "F_value"])})
+
+
+def _setmod(ref):
+    from pyvc.values import VNone
+    return VFun("Wrapf.set_f_module", lambda ex, st, a, k, n: VNone())
+
+
+wrapf_enum = Unit(
+    prop="C11", name="Wrapf.wrap_enum", target="shroud/wrapf.py::Wrapf.wrap_enum",
+    params={"self": ("obj", "Wrapf", {}), "cls": "none", "node": _ENUMNODE_F,
+            "fileinfo": ("obj", "ModuleInfo", {"enum_impl": "list[str]", "module_use": "opaque"})},
+    callees={("Wrapf", "set_f_module"): _setmod},
+    init="n0 = len(fileinfo.enum_impl)\n",
+    loops={0: {"index": "km", "inv": [
+        "len(output) == n0 + 2 + km",
+        "all(output[n0 + 2 + j] == 'integer(C_INT), parameter :: ' + fm(node.ast.members[j].name) + ' = ' + fv(node.ast.members[j].name) "
+        "for j in range(km))"]}},
+    ensures=[
+        "len(fileinfo.enum_impl) == n0 + 2 + len(node.ast.members)",
+        # one named constant per member, each with its own value text
+        "all(fileinfo.enum_impl[n0 + 2 + j] == 'integer(C_INT), parameter :: ' + fm(node.ast.members[j].name) + ' = ' + "
+        "fv(node.ast.members[j].name) for j in range(len(node.ast.members)))",
+    ],
+    raises=[],
+)
+wrapf_enum.global_callees["append_format"] = VFun("append_format[wformat model]", _append_format_fields)
+wrapf_enum.spec_funcs = {"fm": FFM, "fv": FFV}
+wrapf_enum.pure_callees = ["set_f_module"]
+UNITS += [wrapf_enum]
+
+
+# ---------------------------------------------------------------------------------------------------------
+# A3 for literals: a constant inside a value expression is repeated verbatim, except that a C octal literal
+# (leading zero, all digits) is rewritten in decimal for Fortran, where the same text would be read as decimal.
+print_constant = Unit(
+    prop="C11", name="PrintNodeIdentifier.visit_Constant", target="shroud/todict.py::PrintNodeIdentifier.visit_Constant",
+    params={"self": ("obj", "PrintNodeIdentifier", {"key": "str"}), "node": ("obj", "Constant", {"value": "str"})},
+    requires=["len(node.value) >= 1"],
+    ensures=[
+        "implies(self.key.startswith('F_') and len(node.value) > 1 and node.value[0] == '0' and isdigit_(node.value), "
+        "result == str(tointb(node.value, 8)))",
+        "implies(not (self.key.startswith('F_') and len(node.value) > 1 and node.value[0] == '0' and isdigit_(node.value)), "
+        "result == node.value)",
+    ],
+    raises=["ValueError"],       # int(value, 8) of a leading-zero literal with a digit 8 or 9 (not a C literal either)
+    result="str",
+)
+print_constant.spec_funcs = {"tointb": TOINTB}
+UNITS += [print_constant]
